@@ -87,7 +87,7 @@ fn c01(quick: bool) -> PropRun {
             scs.push(spec("C01.full", &grid[0], s, env, 99, oracles));
         }
     }
-    PropRun { level: "model_checking", scenarios: scs, units: vec![], replay_case: None, summary: lw_summary(
+    PropRun { level: "model_checking", scenarios: scs, units: crate::rxsweep::units(quick, "C01"), replay_case: Some(crate::rxsweep::replay_case), summary: lw_summary(
         "deviation-bounded exhaustive exploration of the real HalfConnection pair; a case is one execution (script x configuration x choice vector); distinct = distinct observable outcome (delivery sequence, frame count, final state)",
         json!({"d_all_short_scripts": d_small, "short_script_len": n_small, "d_collision_scripts": d_col, "fates": "deliver/drop/dup/dup-late/delay1/delay3/corrupt", "deltas_ms": DELTAS_STD, "windows": if quick { "4,4096" } else { "2,4,8,4096" }, "wrap": "packet ids start 0, 2^20-2, 2^20-w+1; frame ids 0, 2^32-2, 2^32-w+1"}),
         A_LW) }
@@ -149,7 +149,7 @@ fn c02(quick: bool) -> PropRun {
     }
     }
     scs.extend(crate::props_ew::survive_scenarios(quick, false));
-    PropRun { level: "model_checking", scenarios: scs, units: vec![], replay_case: None, summary: mixed(lw_summary(
+    PropRun { level: "model_checking", scenarios: scs, units: crate::rxsweep::units(quick, "C02"), replay_case: Some(crate::rxsweep::replay_case), summary: mixed(lw_summary(
         "fault prefix (deviations in the first dev_rounds rounds) followed by a fair network; safety on every round, bounded liveness at the horizon T_live = 300 s of virtual time (fixed a priori from protocol constants, never calibrated on the implementation); plus the user-visible form on real Client/Server objects with default time-outs: single-frame faults and pauses of at most 2 s must never end in an Error event, and all Reliable packets arrive within 45 s",
         json!({"d": d, "dev_rounds": dev, "T_live_ms": 300_000, "fair_cadence_ms": 20, "blackouts": "one or both directions, 3..3000 rounds, at every round of the prefix"}),
         &[A_LW[0], A_LW[1], A_LW[3], "bounded liveness: a change that slows recovery but stays inside T_live is not detected; a permanent stall is"])) }
@@ -163,7 +163,9 @@ fn c05(quick: bool) -> PropRun {
     let n = if quick { 3 } else { 4 };
     let d = if quick { 2 } else { 3 };
     let sizes: &[usize] = &[0, 40, 2000];
-    let scripts = scripts_upto(n, &[0, 1], &MODES, sizes, &[0]);
+    // up to 3 packets over the full alphabet; thorough adds every 4-packet script of small packets (4096 scripts)
+    let mut scripts = scripts_upto(3, &[0, 1], &MODES, sizes, &[0]);
+    if !quick { scripts.extend(scripts_upto(4, &[0, 1], &MODES, &[40], &[0]).into_iter().filter(|s| s.ops.len() == 4)); }
     let ideal = |lat: usize, dev: usize| -> (LwEnv, usize) {
         (LwEnv { fates: FATES_NONE, deltas: &[20, 0, 1, 150, 2000], dev_rounds: dev, dev_start: 0, max_rounds: dev + T_LIVE_ROUNDS, skip_choice: true, flush_choice: true, blackouts: &[],
                  stop_when_idle: true, fair_delta: 20, slow_after: usize::MAX, slow_delta: 250, fuel: 2_000_000, shifts: &[] }, lat)
@@ -208,7 +210,7 @@ fn c05(quick: bool) -> PropRun {
     }
     PropRun { level: "model_checking", scenarios: scs, units: vec![], replay_case: None, summary: lw_summary(
         "ideal network (every frame delivered in order after a fixed latency); deviations are timing and application choices only (step spacing, one side skipping a step, extra flush() calls); oracle: global delivery order = submission order minus TimeSensitive packets, exactly once",
-        json!({"d": d, "scripts": format!("all scripts of <= {} packets over 2 channels x 4 modes x sizes {:?} + 6 burst scripts", n, sizes), "latency_rounds": [1, 2, 3, 5], "deltas_ms": [20, 0, 1, 150, 2000]}),
+        json!({"d": d, "scripts": format!("all scripts of <= 3 packets over 2 channels x 4 modes x sizes {:?}{} + 6 burst scripts + the shared pool on the ideal network", sizes, if n == 4 { ", all 4-packet scripts of 40-byte packets" } else { "" }), "latency_rounds": [1, 2, 3, 5], "deltas_ms": [20, 0, 1, 150, 2000]}),
         A_LW) }
 }
 
